@@ -30,3 +30,13 @@ func JWorldGet(max int) *JWorld {
 
 func JWorldAbandon() { jWorkerWorld = nil }
 func JWorldDestroy() { jDestroyWorld() }
+
+// JRunStoredJobSync loads the stored definition of a job, builds the job object its trigger would run and
+// runs it synchronously; a panic is reported as text.
+func (j *JWorld) JRunStoredJobSync(id string) (panicked string, err error) {
+	jb, err := j.reloadJob(id)
+	if err != nil {
+		return "", err
+	}
+	return runJob(jb), nil
+}
